@@ -325,4 +325,4 @@ func TestReplay(t *testing.T) { vf.ReplayEnv(t) }
 
 // native fuzz targets (thorough tier): the fuzzer mutates the byte stream that rapid decodes into generator choices
 func FuzzCountCNF(f *testing.F) { vf.FuzzNamed(f, "C05", "cnf") }
-func FuzzCountPB(f *testing.F) { vf.FuzzNamed(f, "C05", "pb") }
+func FuzzCountPB(f *testing.F)  { vf.FuzzNamed(f, "C05", "pb") }
